@@ -44,8 +44,8 @@ CHECKS = {
     ),
     "C02": dict(
         category="proof",
-        text="For every initial labelling, every list of periodic boundary pairs (any shape, dimension, periodicity) and every cell list: after the merging loop two mask cells carry the same label iff they are connected through initial clusters and boundary pairs (mergeLoop_partition, EqvGen closure), the stored volume of a surviving label is the cell count of its cluster (mergeLoop_volume), and for a component admitting a consistent integer lift (= not winding) the stored position is the centre of mass of the unwrapped component up to whole periods (C02_position_nonwinding). Proved by three loop invariants (labels = quotient; sums over clusters; tracked shifts agree with any consistent lift) over a pointwise executable model of the loop, which runs against the real locate_droplets_in_mask on ALL binary images of small grids x all periodicity masks plus random shaped images; no-overlap / dropped-only-if-dominated are C10's theorems applied to the candidates. This reasoning exposed defect D1 (fixed in /repo a636831; the witness is in the corpus and as a decide-checked example).",
-        note="Trusted: Lean kernel; propext/Classical.choice/Quot.sound; scipy.ndimage.label = raster-ordered face-connected labelling (monitored against an independent BFS every case), center_of_mass/sum (float vs exact rational, compared to 1e-9 L); grid.transform/normalize_point applied in the harness; the cylindrical clause of the property is decided under C01/C09 machinery.",
+        text="For every initial labelling, every list of periodic boundary pairs (any shape, dimension, periodicity) and every cell list: after the merging loop two mask cells carry the same label iff they are connected through initial clusters and boundary pairs (mergeLoop_partition, EqvGen closure), the stored volume of a surviving label is the cell count of its cluster (mergeLoop_volume), and for a component admitting a consistent integer lift (= not winding) the stored position is the centre of mass of the unwrapped component up to whole periods (C02_position_nonwinding). Proved by three loop invariants (labels = quotient; sums over clusters; tracked shifts agree with any consistent lift) over a pointwise executable model of the loop, which runs against the real locate_droplets_in_mask on ALL binary images of small grids x all periodicity masks plus random shaped images; no-overlap / dropped-only-if-dominated are C10's theorems applied to the candidates. FROM THE IMAGE ALONE: Model/Label.lean is an executable labeller written with the same relabelling step; labelExec_isLabelling proves it satisfies the contract of scipy.ndimage.label (background 0, same name iff connected through in-box face pairs inside the image, names ordered like the first raster cells, gap-free), locateMask_partition / locateMask_topology prove that labelling followed by periodic merging puts two image cells into the same cluster exactly when they are connected inside the image by face steps of the grid's topology, stated in coordinates (Lemmas/GridGeom: unflat/setCoord are inverse mixed-radix maps, the generated pairs are exactly 'one step up along one axis' / 'lower face to opposite cell of a periodic axis'); scipy's labelling is compared with labelExec on every image up to 600 cells. This reasoning exposed defect D1 (fixed in /repo a636831; the witness is in the corpus and as a decide-checked example).",
+        note="Trusted: Lean kernel; propext/Classical.choice/Quot.sound; scipy.ndimage.label = raster-ordered face-connected labelling (compared with the verified model labeller on every image up to 600 cells and with an independent BFS on every case), center_of_mass/sum (float vs exact rational, compared to 1e-9 L); grid.transform/normalize_point applied in the harness; the cylindrical clause of the property is decided under C01/C09 machinery.",
         technique="Lean 4 invariant proofs about a hand-written executable model + exhaustive differential correspondence + independent oracle",
         ref="DESIGN.md §5 C02",
     ),
@@ -100,8 +100,8 @@ CHECKS = {
     ),
     "C13": dict(
         category="proof",
-        text="Theorems over the reals about the loops of PerturbedDroplet2D/3D/3DAxisSym as REGENERATED from the source on every run (the translator preserves '=' vs '+=', the 'if a != 0' guards and the powers of the radius), with the harmonics as an arbitrary table: interface distance = R(1 + sum a_k B_k); 2-D curvature = 1/(R(1 - sum (n^2-1)(...))); 3-D/axisymmetric curvature = 1/R + (1/R) sum a_k (l^2+l-2)/2 Y_k with ALL modes contributing; curvature scales like 1/R and distance like R for any radius and mode combination; 2-D volume = pi R^2 (1 + sum a^2/2) with setter/getter round trip; volume_approx = sphere volume (no first-order term); with all amplitudes zero every quantity reduces to the sphere's; mode indexing (l,m)<->k round trips for all k. The geometric meaning of the linearised specification is validated numerically (exact planar curvature, finite-difference mean curvature of the level set, spectral quadrature of volume and arc length; 'to first order' = the discrepancy drops >6.6x when amplitudes shrink 4x); outline and triangulation vertices are checked on the implementation. Exposed D7/D8 (curvature), D9 (volume_approx) and D15 (scalar call with zero amplitudes), all fixed in /repo.",
-        note="Trusted: Lean kernel; propext/Classical.choice/Quot.sound; the translator (monitored by the Float correspondence at 1e-12); scipy's sph_harm_y through the library wrappers; the first-order expansion of mean curvature/volume of r = R(1+eps u) (classical; Mathlib has no spherical harmonics) is validated numerically only; the 256-point surface_area rule and dblquad volume are compared with independent quadrature.",
+        text="Theorems over the reals about the loops of PerturbedDroplet2D/3D/3DAxisSym as REGENERATED from the source on every run (the translator preserves '=' vs '+=', the 'if a != 0' guards and the powers of the radius), with the harmonics as an arbitrary table: interface distance = R(1 + sum a_k B_k); 2-D curvature = 1/(R(1 - sum (n^2-1)(...))); 3-D/axisymmetric curvature = 1/R + (1/R) sum a_k (l^2+l-2)/2 Y_k with ALL modes contributing; curvature scales like 1/R and distance like R for any radius and mode combination; 2-D volume = pi R^2 (1 + sum a^2/2) with setter/getter round trip; volume_approx = sphere volume (no first-order term); with all amplitudes zero every quantity reduces to the sphere's; mode indexing (l,m)<->k round trips for all k. IN 2-D THE GEOMETRY ITSELF IS PROVED (Lemmas/Fourier.lean, pure Mathlib): the reported volume equals the integral of r(phi)^2/2 over [0, 2 pi] of the regenerated interface distance, for every mode count (p2d_volume_is_area: orthogonality of sin/cos + Parseval for trigonometric polynomials); the outline t -> centre + r(t)(cos t, sin t) has derivatives r', r'' given by the derived coefficient lists, its signed curvature is the polar formula (polar_param_curv), and with all amplitudes scaled by eps the true curvature and the reported one agree at eps = 0 (both 1/R) and have the same derivative in eps at 0 (p2d_curvature_first_order) - i.e. agreement to first order in the amplitudes for any radius, modes and direction. For the 3-D classes the geometric meaning of the linearised specification is validated numerically (exact planar curvature, finite-difference mean curvature of the level set, spectral quadrature of volume and arc length; 'to first order' = the discrepancy drops >6.6x when amplitudes shrink 4x); outline and triangulation vertices are checked on the implementation. Exposed D7/D8 (curvature), D9 (volume_approx), D15 (scalar call with zero amplitudes) and D18 (axisymmetric droplets reported interface positions / triangulations of the unperturbed sphere), all fixed in /repo.",
+        note="Trusted: Lean kernel; propext/Classical.choice/Quot.sound; the translator (monitored by the Float correspondence at 1e-12); scipy's sph_harm_y through the library wrappers; for the 3-D and axisymmetric classes the first-order expansion of mean curvature/volume of r = R(1+eps u) (classical; Mathlib has no spherical harmonics) is validated numerically only (the 2-D case is proved); the 256-point surface_area rule and dblquad volume are compared with independent quadrature.",
         technique="Lean 4 theorems over regenerated definitions (translator) + Float correspondence + numerical validation of the specification",
         ref="DESIGN.md §5 C13",
     ),
@@ -121,16 +121,16 @@ CHECKS = {
     ),
     "C04": dict(
         category="proof",
-        text="Model of everything refine_droplet itself contributes: the free mask from the grid's coordinate constraints, the per-class bounds (radius >= 0, width >= 0, amplitudes in [-1,1], positions free), the starting point with or without fitted intensity levels, and scattering the solver's answer back into the record. Theorems: constrained coordinates are never written whatever the solver returns (refine_constrained_untouched); scatter(select) = id, i.e. a solver that stays at its start returns the candidate (scatter_select); the written entries are exactly the answer (select_scatter); the bounds say what the property requires (bounds_spec); the starting point is feasible for every valid candidate and vmin <= vmax, with and without fitted levels (refinePlan_x0_feasible; the pre-repair starting point is refuted by old_x0_infeasible_witness, D11); under the solver contract SolverOK the cost does not increase and the answer is inside the bounds. The solver is wrapped as seen from droplets.image_analysis: x0/lb/ub must equal the model's plan bit for bit, the returned droplet must equal the model's finish(answer) up to the final wrap, SolverOK is monitored; class, bounds, untouched coordinates, wrapped position, unmodified image, fixed point and cost are checked on every fit over all grid families, all five classes and all option combinations.",
+        text="Model of everything refine_droplet itself contributes: the free mask from the grid's coordinate constraints, the per-class bounds (radius >= 0, width >= 0, amplitudes in [-1,1], positions free), the starting point with or without fitted intensity levels, scattering the solver's answer back into the record, and - around the solver call - the promotion of the candidate (a width that is SET, even 0, is what the fit starts from; only an unset width becomes the grid's typical discretisation: promote_width) and the final wrapping of the position with numpy's floored modulo (wrap1_in_box: the result lies in [lo, lo+L) and differs by whole periods; wrap1_id; wrapPos_spec per axis; refineResult_tail: only the position is touched). Theorems: constrained coordinates are never written whatever the solver returns (refine_constrained_untouched); scatter(select) = id, i.e. a solver that stays at its start returns the candidate (scatter_select); the written entries are exactly the answer (select_scatter); the bounds say what the property requires (bounds_spec); the starting point is feasible for every valid candidate and vmin <= vmax, with and without fitted levels (refinePlan_x0_feasible; the pre-repair starting point is refuted by old_x0_infeasible_witness, D11); under the solver contract SolverOK the cost does not increase and the answer is inside the bounds. The solver is wrapped as seen from droplets.image_analysis: the model receives the candidate AS GIVEN (class, width set or not) and x0/lb/ub must equal its plan bit for bit, the returned droplet must equal refineResult(answer) including the wrap, SolverOK is monitored; class, bounds, untouched coordinates, wrapped position, unmodified image, fixed point and cost are checked on every fit over all grid families (incl. candidates given by their periodic image outside the box and periodic cylinders), all five classes, sharp / unset / positive widths and all option combinations.",
         note="Trusted: Lean kernel; propext/Classical.choice/Quot.sound; scipy.optimize.least_squares satisfies SolverOK (monitored, not proved); binary_dilation/rendering define the fitted region (rendering is C03's); grid.normalize_point for the final wrap.",
         technique="Lean 4 theorems about a hand-written executable model + exact correspondence on the tapped solver call",
         ref="DESIGN.md §5 C04",
     ),
     "C01": dict(
         category="proof",
-        text="Half-cell bound for ALL lattice placements: for any origin, spacing h > 0, centre c and threshold q, the cell centres with (x-c)^2 < q form a run whose mean differs from c by strictly less than h/2 (lattice_run_mean); summed over the fibres of a ball along one axis (every fibre is such a run with its own q = R^2 - rest) the centre of mass of all covered cells lies within half a cell of c along that axis - any dimension, anisotropic spacing (lattice_fibres_com, lattice_com_within_half_cell); on radial grids the located radius m dr is within dr/2 of R (C01_radial) and the sphere of that radius has exactly the volume of the covered shells (shells_telescope with the regenerated volume formula vanishing at 0). One droplet per component, volume = covered cells x cell volume and position = unwrapped centre of mass modulo the period are C02's theorems, the covered cells are C03's rendering. The model pipeline (exact rational inside -> raster labelling -> merge loop) is run against the real get_phasefield -> locate_droplets; predicates: count, exact volume, half-spacing bound per axis under the periodic metric, position inside the box, on Cartesian 1-3-D (all periodicities, anisotropic, offsets, straddling droplets), polar/spherical (centred) and cylindrical (on-axis) grids; exhaustive lattice offsets in the thorough tier. Exposed D2 (fixed in /repo a0c22cd).",
-        note="Trusted: Lean kernel; propext/Classical.choice/Quot.sound; that the covered cells of a ball split into fibres that are runs of a symmetric condition is used as the (elementary) geometric input of lattice_fibres_com; 'well-separated' is made explicit by the generator's margins (the theorem that the stated separation prevents adjacency/overlap of located spheres is not proved); float evaluation of centre of mass / from_volume compared to 1e-12 / 1e-9.",
-        technique="Lean 4 theorems (lattice half-cell lemma, telescoping) + model-pipeline correspondence + independent-metric predicates",
+        text="Half-cell bound for ALL lattice placements: for any origin, spacing h > 0, centre c and threshold q, the cell centres with (x-c)^2 < q form a run whose mean differs from c by strictly less than h/2 (lattice_run_mean); summed over the fibres of a ball along one axis (every fibre is such a run with its own q = R^2 - rest) the centre of mass of all covered cells lies within half a cell of c along that axis - any dimension, anisotropic spacing (lattice_fibres_com, lattice_com_within_half_cell); on radial grids the located radius m dr is within dr/2 of R (C01_radial) and the sphere of that radius has exactly the volume of the covered shells (shells_telescope with the regenerated volume formula vanishing at 0). ONE DROPLET END TO END IN THE MODEL: the cells a droplet covers (C03's exact rendering `inside`, periodic differences included) form one component of the grid's topology for every grid, centre (inside or outside the box) and radius (ball_connected, by a descent along face steps that never increase the distance: Lemmas/BallConn), hence rendering -> labelling -> periodic merging puts all covered cells into one cluster (single_droplet_one_cluster) and the pipeline the driver executes returns a list with exactly one entry whose volume is the number of covered cells (locateMask_single). Position = unwrapped centre of mass modulo the period is C02's theorem. The model pipeline (exact rational inside -> raster labelling -> merge loop) is run against the real get_phasefield -> locate_droplets; predicates: count, exact volume, half-spacing bound per axis under the periodic metric, position inside the box, on Cartesian 1-3-D (all periodicities, anisotropic, offsets, straddling droplets), polar/spherical (centred) and cylindrical (on-axis) grids; exhaustive lattice offsets in the thorough tier. Exposed D2 (fixed in /repo a0c22cd).",
+        note="Trusted: Lean kernel; propext/Classical.choice/Quot.sound; that the covered cells of a ball split into fibres that are runs of a symmetric condition is used as the (elementary) geometric input of lattice_fibres_com (the composition half-cell bound <- unwrapped component of the model is not yet a single theorem); several droplets: 'well-separated' is made explicit by the generator's margins (the theorem that the stated separation prevents adjacency/overlap of located spheres is not proved); float evaluation of centre of mass / from_volume compared to 1e-12 / 1e-9.",
+        technique="Lean 4 theorems (one-droplet pipeline theorem, lattice half-cell lemma, telescoping) + model-pipeline correspondence + independent-metric predicates",
         ref="DESIGN.md §5 C01",
     ),
     "C09": dict(
